@@ -18,6 +18,30 @@ type c13Spec struct {
 	Host    []byte   `json:"host"`
 	Origins [][]byte `json:"origins"`
 	Class   string   `json:"class"`
+	// History: handshakes the same process served before this one (the policy is a function of this
+	// request alone: nothing an earlier request did may matter)
+	History []c13Req `json:"history,omitempty"`
+}
+
+type c13Req struct {
+	Host    []byte   `json:"host"`
+	Origins [][]byte `json:"origins"`
+}
+
+func c13Request(host []byte, origins [][]byte) *http.Request {
+	r := &http.Request{Method: "GET", Host: string(host), Header: http.Header{}, URL: &url.URL{Path: "/"}, Proto: "HTTP/1.1", ProtoMajor: 1, ProtoMinor: 1}
+	r.Header["Connection"] = []string{"Upgrade"}
+	r.Header["Upgrade"] = []string{"websocket"}
+	r.Header["Sec-Websocket-Version"] = []string{"13"}
+	r.Header["Sec-Websocket-Key"] = []string{"dGhlIHNhbXBsZSBub25jZQ=="}
+	var os []string
+	for _, o := range origins {
+		os = append(os, string(o))
+	}
+	if len(os) > 0 {
+		r.Header["Origin"] = os
+	}
+	return r
 }
 
 func c13Exec(s core.Spec) core.Exec {
@@ -34,9 +58,12 @@ func c13Exec(s core.Spec) core.Exec {
 	if len(origins) > 0 {
 		r.Header["Origin"] = origins
 	}
+	u := websocket.Upgrader{}
+	for _, h := range sp.History {
+		u.Upgrade(NewFakeRW(NewScriptConn(nil, 0, false)), c13Request(h.Host, h.Origins), nil)
+	}
 	conn := NewScriptConn(nil, 0, false)
 	w := NewFakeRW(conn)
-	u := websocket.Upgrader{}
 	c, err := u.Upgrade(w, r, nil)
 	up := 2
 	if err == nil && c != nil && w.Hijacked {
@@ -60,6 +87,7 @@ func c13Exec(s core.Spec) core.Exec {
 	t.OptBytes(urlOK, urlHost)
 	t.N(up).Bool(direct)
 	tags := []string{"class:" + sp.Class, core.Tag("up:%d", up)}
+	tags = append(tags, core.Tag("history:%d", len(sp.History)))
 	return core.Exec{Tape: t.String(), Tags: tags, Nontrivial: len(sp.Origins) > 0}
 }
 
@@ -217,6 +245,24 @@ func c13Gen(rng *rand.Rand, tier string) []core.Spec {
 			sp.Origins = append(sp.Origins, []byte("http://"+host))
 			sp.Class += "+second-origin-same"
 		}
+		switch rng.Intn(4) {
+		case 0:
+			// the origin of this request was same-origin for the host it names, served just before;
+			// then a refused request for this host
+			if pu, err := url.Parse(o); err == nil && pu.Host != "" {
+				sp.History = []c13Req{{Host: []byte(pu.Host), Origins: [][]byte{[]byte(o)}},
+					{Host: sp.Host, Origins: [][]byte{[]byte("https://elsewhere.invalid")}}}
+				if rng.Intn(2) == 0 {
+					sp.History = sp.History[:1]
+				}
+			}
+		case 1:
+			// earlier requests of this run, as they come
+			for k := 1 + rng.Intn(3); k > 0 && len(out) > 0; k-- {
+				q := out[rng.Intn(len(out))].(*c13Spec)
+				sp.History = append(sp.History, c13Req{Host: q.Host, Origins: q.Origins})
+			}
+		}
 		out = append(out, sp)
 	}
 	return out
@@ -254,8 +300,9 @@ func c13Shrink(s core.Spec) []core.Spec {
 func init() {
 	core.Register(&core.Prop{
 		ID:   "C13",
-		Rule: "(Host, Origin) pairs from the property's grammar (case variants, one-byte edits, added/removed labels, ports, userinfo tricks, U+212A/U+017F, invalid UTF-8 on one or both sides, junk, several Origin lines) sent through Upgrader{}.Upgrade and checkSameOrigin; non-trivial = has an Origin header; distinct by full case tape",
+		Rule: "(Host, Origin) pairs from the property's grammar (case variants, one-byte edits, added/removed labels, ports, userinfo tricks, U+212A/U+017F, invalid UTF-8 on one or both sides, junk, several Origin lines) sent through Upgrader{}.Upgrade and checkSameOrigin, half of them after 1-3 earlier handshakes served by the same process (the request naming this origin's own host accepted just before, refused requests for this host, other requests of the run); non-trivial = has an Origin header; distinct by full case tape",
 		Gen:  c13Gen,
+		Serial: true, // the histories must not interleave with other cases
 		Exec: c13Exec,
 		Decode: func(raw json.RawMessage) (core.Spec, error) {
 			var s c13Spec
